@@ -140,7 +140,8 @@ Apply(cx, t) ==
       [] cx = "t4d" -> [k |-> "tup", ts |-> <<L("str"), L("num"), L("bool"), t>>]
 
 \* serde_json object keys must be strings or integers
-CtxOK(cx, t) == cx \in {"hmapk", "bmapk"} => (t.k = "leaf" /\ t.c \in {"str", "num"})
+\* (strings, integers and unit-variant enums -- a named project type -- are valid map keys)
+CtxOK(cx, t) == cx \in {"hmapk", "bmapk"} => ((t.k = "leaf" /\ t.c \in {"str", "num"}) \/ t.k = "named")
 
 
 -----------------------------------------------------------------------------
